@@ -11,6 +11,9 @@
 (*            to the operands' decimal-degree values                       *)
 (*   round    rounding moved the value by more than half a unit            *)
 (*   bool     comparison differs from the comparison of the decimal values *)
+(*   operand_mutated  an operator changed one of its operands (an          *)
+(*            expression that uses a value twice would then depend on the  *)
+(*            order of evaluation)                                         *)
 (*   same_angle_any_notation  the same expression evaluated with other     *)
 (*            leaf classes gives a different angle                         *)
 (***************************************************************************)
@@ -58,7 +61,8 @@ Step ==
             /\ st' = Append(st, Item(ev.res)) /\ UNCHANGED <<dead, ref, nops>>
        [] ev.op \in CmpOps ->
             /\ \E f \in {IF ev.exc # "" THEN "raised"
-                         ELSE IF ev.bool # CmpVal(ev.op, TopS(2).dec, TopS(1).dec) THEN "bool" ELSE ""} :
+                         ELSE IF ev.bool # CmpVal(ev.op, TopS(2).dec, TopS(1).dec) THEN "bool"
+                         ELSE IF ~ev.opsame THEN "operand_mutated" ELSE ""} :
                  /\ (IF f = "" THEN TRUE ELSE Report(ev.op \o "." \o f))
                  /\ dead' = (f # "")
             /\ st' = <<>> /\ UNCHANGED <<ref, nops>>
@@ -79,6 +83,7 @@ Step ==
             \E f \in {IF ev.exc # "" THEN "raised"
                       ELSE IF ev.res.cls # x[2] THEN "class"
                       ELSE IF ~Within(FromJ(ev.res.ang), x[3], x[4]) THEN (IF ev.op = "Round" THEN "round" ELSE "value")
+                      ELSE IF ~ev.opsame THEN "operand_mutated"
                       ELSE ""} :
               /\ (IF f = "" THEN TRUE ELSE Report(ev.op \o "." \o f))
               /\ dead' = (f # "")
